@@ -481,6 +481,42 @@ def o_zero_gyro(inp):
     return None
 
 
+def o_tiny_gyro(inp):
+    """gyro noise that is non-zero but tiny (1e-7 ... 1e-12 rad/s) is an admissible realisation: over a short record the
+    filter must move exactly as it does with 1e-3 noise (the noise contributes < 0.1 deg), in particular it must not freeze"""
+    from vlib.core import call_outcome
+    nm = inp['filter']
+    ref = call_outcome(run_filter, dict(inp, gyro_noise=1e-3))
+    r = call_outcome(run_filter, inp)
+    if ref[0] == 'raise' or ref[1][0] is None:
+        return None                         # reported by 'converge'
+    if r[0] == 'raise':
+        return {'tag': f'{nm}/tiny-gyro-noise-raises-{r[1]}', 'observed': list(r[1:])}
+    e, Qs = r[1]
+    if e is None:
+        return {'tag': f'{nm}/tiny-gyro-noise-nonfinite', 'observed': np.asarray(Qs)[-1:]}
+    if float(np.max(np.abs(Qs - Qs[0]))) < 1e-9:
+        return {'tag': f'{nm}/tiny-gyro-noise-frozen', 'observed': {'noise': inp['gyro_noise'], 'initial': float(e[0]), 'final': float(e[-1])},
+                'expected': 'the estimate moves towards the truth'}
+    eref = ref[1][0]
+    if nm != 'ukf' and abs(float(e[-1]) - float(eref[-1])) > 1.0:
+        return {'tag': f'{nm}/tiny-gyro-noise-differs', 'observed': {'noise': inp['gyro_noise'], 'final': float(e[-1]), 'final with 1e-3': float(eref[-1])},
+                'expected': 'same error (<= 1 deg) as with 1e-3 rad/s noise'}
+    return None
+
+
+def o_long(inp):
+    """converges AND THEN STAYS THERE: a long record, settled-error clause checked to the last sample"""
+    r = o_converge(inp)
+    if r is None:
+        return None
+    kind = r['tag'].split('/', 1)[1]
+    if kind == 'exceeds-initial':
+        return None                         # that clause belongs to 'converge'
+    r['tag'] = f"{_name(inp)}/long-record-{kind}"
+    return r
+
+
 def o_jacobian(inp):
     """EKF: dhdq(q) (both modes) is the derivative of the measurement model along the unit sphere: central differences of
     h along tangent directions; and dfdq is the derivative of f"""
@@ -534,7 +570,8 @@ def o_scale(inp):
     return None
 
 
-ORACLES = {'converge': o_converge, 'zero_gyro': o_zero_gyro, 'jacobian': o_jacobian, 'scale': o_scale}
+ORACLES = {'converge': o_converge, 'zero_gyro': o_zero_gyro, 'jacobian': o_jacobian, 'scale': o_scale,
+           'tiny_gyro': o_tiny_gyro, 'long': o_long}
 
 # configuration table.  Each row: filter, marg, frame, gains, frequency, N, settle, tol (deg), slack (deg), tier.
 # Calibration (unchanged tree, 2 attitudes x {175,120,45} deg x {tilt, mixed, heading}, noise 1e-3): `settle` >= 1.5 x the
@@ -662,6 +699,42 @@ def search(ctx, scale):
         inp = _cfg_inp(row, atts[4 + ci % 2], 30.0, 45.0, 100.0, seed=7)
         inp['N'] = min(inp['N'], 300 if row[0] in ('madgwick', 'mahony', 'aqua') else 1500)   # frozen filters show it at once
         ctx.check('zero_gyro', inp, o_zero_gyro(inp), nontrivial_key=('zero', ci))
+    # tiny but non-zero gyro noise (guards like allclose(gyr, 0) freeze the filter): every (filter, mode, frame), 5 levels
+    seen = set()
+    for ci, row in enumerate(CONFIGS):
+        key = (row[0], row[1], row[2])
+        if key in seen or (row[9] == 't' and not thorough):
+            continue
+        seen.add(key)
+        for k, lvl in enumerate((1e-7, 1e-8, 5e-9, 1e-10, 1e-12)):
+            inp = _cfg_inp(row[:10], atts[4 + (ci + k) % 4], 120.0, 45.0, 33.0 * k, seed=900 + ci)
+            inp['N'] = 80
+            inp['gyro_noise'] = lvl
+            if row[0] in STREAMABLE and k % 2:
+                inp['stream'] = True
+            ctx.check('tiny_gyro', inp, o_tiny_gyro(inp), nontrivial_key=('tiny', key, lvl))
+    # long records ("... and then stays there"): Complementary at two gains (cheap), one long record for three more filters
+    # in the quick tier, 20000 samples for every (filter, mode, frame) in the thorough tier (UKF and the slow-gain FKF rows,
+    # whose not-settled behaviour is a known finding, are left out)
+    for gain, N in ((0.5, 1500), (0.9, 8000)):
+        for marg in (0, 1):
+            row = ('complementary', marg, 'NED', {'gain': gain}, 100.0, N, 200, 0.05, 0.5, 'q')
+            inp = _cfg_inp(row, atts[4 + marg], 60.0, 45.0, 10.0, seed=950 + marg)
+            ctx.check('long', inp, o_long(inp), nontrivial_key=('long', 'complementary', marg, gain))
+    seen = set()
+    for ci, row in enumerate(CONFIGS):
+        key = (row[0], row[1], row[2])
+        if key in seen or row[0] in ('ukf', 'complementary') or len(row) > 10 or (row[3] and row[0] != 'fkf'):
+            continue
+        if row[0] == 'fkf' and not row[3].get('Pk'):
+            continue
+        seen.add(key)
+        if not thorough and key not in (('roleq', 1, 'NED'), ('aqua', 0, 'NED'), ('mahony', 0, 'NED')):
+            continue
+        r2 = list(row[:10])
+        r2[5] = 20000 if thorough else 6000
+        inp = _cfg_inp(tuple(r2), atts[4 + ci % 4], 60.0, 45.0, 10.0, seed=960 + ci)
+        ctx.check('long', inp, o_long(inp), nontrivial_key=('long',) + key)
     # magnitude independence: 40 samples, acc and mag scaled over decades (m/s^2, raw counts, milli-units, off-nominal 0.85/1.15)
     done = set()
     for ci, row in enumerate(CONFIGS):
